@@ -795,6 +795,7 @@ func conclude(p *Prop, o *opts, rep *Report, start time.Time) int {
 		}
 		nviol++
 		if nviol > 20 {
+			fmt.Printf("  (further violation, no replay file) key=%s count=%d what=%s\n", k, fv.Count, oneLine(fv.What, 200))
 			continue
 		}
 		path := filepath.Join(o.replayDir, fv.Case.Hash()+"-"+sanitize(k)+".json")
